@@ -326,7 +326,13 @@ impl<'a> YamlEmitter<'a> {
         } else {
             self.level += 1;
             for (cnt, (k, v)) in h.iter().enumerate() {
-                let complex_key = matches!(k, Yaml::Mapping(_) | Yaml::Sequence(_));
+                // Collections need the explicit `? key` form, and so do long strings: an implicit
+                // key is limited to 1024 characters, escapes (up to 6 per byte) included.
+                let complex_key = match k {
+                    Yaml::Mapping(_) | Yaml::Sequence(_) => true,
+                    Yaml::Value(Scalar::String(s)) => s.len() > 128,
+                    _ => false,
+                };
                 if cnt > 0 {
                     writeln!(self.writer)?;
                     self.write_indent()?;
